@@ -1,0 +1,113 @@
+//go:build verif
+
+// Contracts for the directives that set the engine mode and the body limits / limit actions (package seclang).
+// Checked by /verif/govc (comment-only file; no code). Trusted specs used: strconv.ParseInt / Atoi, strings.ToLower
+// (/verif/specs/ctl.spec, stdlib.spec), types.ParseRuleEngineStatus (verified, types/zz_contracts_ctl_verif.go).
+// Each directive: the option text maps to exactly the documented field value; anything else is an error and changes
+// nothing; negative / non-numeric numbers are rejected.
+package seclang
+
+// DirOK(o): the options object the parser hands to a directive.
+//@ define DirOK(o *DirectiveOptions) bool := o != nil && o.WAF != nil
+
+// ---------------------------------------------------------------- SecRuleEngine (C02)
+
+// GENUINE FAILURE of errorChangesNothing: `SecRuleEngine Onn` returns an error AND stores -1 in WAF.RuleEngine (the value
+// ParseRuleEngineStatus returns with its error is assigned unconditionally); test TestZWafcfgRuleEngineErrorChangesNothing.
+//@ func directiveSecRuleEngine props C02,C07
+//@   requires opts: DirOK(options)
+//@   ensures accepts: isnil(result) <==> (lower(options.Opts) == "on" || lower(options.Opts) == "detectiononly" || lower(options.Opts) == "off")
+//@   ensures on: lower(options.Opts) == "on" ==> options.WAF.RuleEngine == types.RuleEngineOn
+//@   ensures detectionOnly: lower(options.Opts) == "detectiononly" ==> options.WAF.RuleEngine == types.RuleEngineDetectionOnly
+//@   ensures off: lower(options.Opts) == "off" ==> options.WAF.RuleEngine == types.RuleEngineOff
+//@   ensures errorChangesNothing: !isnil(result) ==> options.WAF.RuleEngine == old(options.WAF.RuleEngine)
+//@   ensures actionsUntouched: options.WAF.RequestBodyLimitAction == old(options.WAF.RequestBodyLimitAction) &&
+//@       options.WAF.ResponseBodyLimitAction == old(options.WAF.ResponseBodyLimitAction)
+
+// ---------------------------------------------------------------- limit actions (C02, C10)
+
+//@ func directiveSecRequestBodyLimitAction props C02,C10,C07
+//@   requires opts: DirOK(options)
+//@   ensures accepts: isnil(result) <==> (lower(options.Opts) == "reject" || lower(options.Opts) == "processpartial")
+//@   ensures reject: lower(options.Opts) == "reject" ==> options.WAF.RequestBodyLimitAction == types.BodyLimitActionReject
+//@   ensures partial: lower(options.Opts) == "processpartial" ==> options.WAF.RequestBodyLimitAction == types.BodyLimitActionProcessPartial
+//@   ensures errorChangesNothing: !isnil(result) ==> options.WAF.RequestBodyLimitAction == old(options.WAF.RequestBodyLimitAction)
+//@   ensures othersUntouched: options.WAF.ResponseBodyLimitAction == old(options.WAF.ResponseBodyLimitAction) && options.WAF.RuleEngine == old(options.WAF.RuleEngine)
+
+//@ func directiveSecResponseBodyLimitAction props C02,C10,C07
+//@   requires opts: DirOK(options)
+//@   ensures accepts: isnil(result) <==> (lower(options.Opts) == "reject" || lower(options.Opts) == "processpartial")
+//@   ensures reject: lower(options.Opts) == "reject" ==> options.WAF.ResponseBodyLimitAction == types.BodyLimitActionReject
+//@   ensures partial: lower(options.Opts) == "processpartial" ==> options.WAF.ResponseBodyLimitAction == types.BodyLimitActionProcessPartial
+//@   ensures errorChangesNothing: !isnil(result) ==> options.WAF.ResponseBodyLimitAction == old(options.WAF.ResponseBodyLimitAction)
+//@   ensures othersUntouched: options.WAF.RequestBodyLimitAction == old(options.WAF.RequestBodyLimitAction) && options.WAF.RuleEngine == old(options.WAF.RuleEngine)
+
+// ---------------------------------------------------------------- On / Off switches (C10)
+
+//@ func parseBoolean props C10,C07
+//@   modifies nothing
+//@   ensures accepts: isnil(result1) <==> (lower(data) == "on" || lower(data) == "off")
+//@   ensures value: isnil(result1) ==> (result0 <==> lower(data) == "on")
+//@   ensures errorIsFalse: !isnil(result1) ==> !result0
+
+//@ func directiveSecRequestBodyAccess props C10,C07
+//@   requires opts: DirOK(options)
+//@   ensures accepts: isnil(result) <==> (lower(options.Opts) == "on" || lower(options.Opts) == "off")
+//@   ensures value: isnil(result) ==> (options.WAF.RequestBodyAccess <==> lower(options.Opts) == "on")
+//@   ensures errorChangesNothing: !isnil(result) ==> options.WAF.RequestBodyAccess == old(options.WAF.RequestBodyAccess)
+//@   ensures otherUntouched: options.WAF.ResponseBodyAccess == old(options.WAF.ResponseBodyAccess)
+
+//@ func directiveSecResponseBodyAccess props C10,C07
+//@   requires opts: DirOK(options)
+//@   ensures accepts: isnil(result) <==> (lower(options.Opts) == "on" || lower(options.Opts) == "off")
+//@   ensures value: isnil(result) ==> (options.WAF.ResponseBodyAccess <==> lower(options.Opts) == "on")
+//@   ensures errorChangesNothing: !isnil(result) ==> options.WAF.ResponseBodyAccess == old(options.WAF.ResponseBodyAccess)
+//@   ensures otherUntouched: options.WAF.RequestBodyAccess == old(options.WAF.RequestBodyAccess)
+
+// ---------------------------------------------------------------- numeric limits (C10)
+// parseI(s, 64) / intVal(s): s is a decimal integer that fits 64 bits / its value (ctl.spec); isnum / atoi: the same
+// for strconv.Atoi (stdlib.spec).
+
+// GENUINE FAILURES: negativeRejected of the four ParseInt-based directives (`SecRequestBodyLimit -5` is accepted and stored;
+// for the request / in-memory / response limits coraza.NewWAF's Validate rejects it later, RequestBodyNoFilesLimit is never
+// checked), and errorChangesNothing of directiveSecRequestBodyNoFilesLimit (`abc` stores 0, an out-of-range number stores
+// MaxInt64, both with an error); tests TestZWafcfgNegativeLimits, TestZWafcfgNoFilesLimitErrorChangesNothing.
+//@ func directiveSecRequestBodyLimit props C10,C07
+//@   requires opts: DirOK(options)
+//@   ensures nonNumericRejected: !parseI(options.Opts, 64) ==> !isnil(result)
+//@   ensures negativeRejected: parseI(options.Opts, 64) && intVal(options.Opts) < 0 ==> !isnil(result)
+//@   ensures value: isnil(result) ==> options.WAF.RequestBodyLimit == intVal(options.Opts)
+//@   ensures accepted: parseI(options.Opts, 64) && intVal(options.Opts) >= 0 && len(options.Opts) > 0 ==> isnil(result)
+//@   ensures errorChangesNothing: !isnil(result) ==> options.WAF.RequestBodyLimit == old(options.WAF.RequestBodyLimit)
+//@   ensures othersUntouched: options.WAF.ResponseBodyLimit == old(options.WAF.ResponseBodyLimit) && options.WAF.requestBodyInMemoryLimit == old(options.WAF.requestBodyInMemoryLimit)
+
+//@ func directiveSecResponseBodyLimit props C10,C07
+//@   requires opts: DirOK(options)
+//@   ensures nonNumericRejected: !parseI(options.Opts, 64) ==> !isnil(result)
+//@   ensures negativeRejected: parseI(options.Opts, 64) && intVal(options.Opts) < 0 ==> !isnil(result)
+//@   ensures value: isnil(result) ==> options.WAF.ResponseBodyLimit == intVal(options.Opts)
+//@   ensures accepted: parseI(options.Opts, 64) && intVal(options.Opts) >= 0 && len(options.Opts) > 0 ==> isnil(result)
+//@   ensures errorChangesNothing: !isnil(result) ==> options.WAF.ResponseBodyLimit == old(options.WAF.ResponseBodyLimit)
+//@   ensures othersUntouched: options.WAF.RequestBodyLimit == old(options.WAF.RequestBodyLimit) && options.WAF.requestBodyInMemoryLimit == old(options.WAF.requestBodyInMemoryLimit)
+
+//@ func directiveSecRequestBodyNoFilesLimit props C10,C07
+//@   requires opts: DirOK(options)
+//@   ensures nonNumericRejected: !parseI(options.Opts, 64) ==> !isnil(result)
+//@   ensures negativeRejected: parseI(options.Opts, 64) && intVal(options.Opts) < 0 ==> !isnil(result)
+//@   ensures value: isnil(result) ==> options.WAF.RequestBodyNoFilesLimit == intVal(options.Opts)
+//@   ensures errorChangesNothing: !isnil(result) ==> options.WAF.RequestBodyNoFilesLimit == old(options.WAF.RequestBodyNoFilesLimit)
+//@   ensures othersUntouched: options.WAF.RequestBodyLimit == old(options.WAF.RequestBodyLimit) && options.WAF.ResponseBodyLimit == old(options.WAF.ResponseBodyLimit)
+
+//@ func directiveSecRequestBodyInMemoryLimit props C10,C07
+//@   requires opts: DirOK(options)
+//@   ensures nonNumericRejected: !parseI(options.Opts, 64) ==> !isnil(result)
+//@   ensures negativeRejected: parseI(options.Opts, 64) && intVal(options.Opts) < 0 ==> !isnil(result)
+//@   ensures value: isnil(result) ==> options.WAF.requestBodyInMemoryLimit != nil && deref(options.WAF.requestBodyInMemoryLimit) == intVal(options.Opts)
+//@   ensures errorChangesNothing: !isnil(result) ==> options.WAF.requestBodyInMemoryLimit == old(options.WAF.requestBodyInMemoryLimit)
+//@   ensures othersUntouched: options.WAF.RequestBodyLimit == old(options.WAF.RequestBodyLimit) && options.WAF.ResponseBodyLimit == old(options.WAF.ResponseBodyLimit)
+
+//@ func directiveSecArgumentsLimit props C10,C07
+//@   requires opts: DirOK(options)
+//@   ensures accepts: isnil(result) <==> (isnum(options.Opts) && atoi(options.Opts) > 0)
+//@   ensures value: isnil(result) ==> options.WAF.ArgumentLimit == atoi(options.Opts)
+//@   ensures errorChangesNothing: !isnil(result) ==> options.WAF.ArgumentLimit == old(options.WAF.ArgumentLimit)
